@@ -360,6 +360,7 @@ func cmdCheck(args []string) int {
 		}
 	}
 	ruleRes := p.checkRules(*prop)
+	ruleRes = append(ruleRes, p.checkNonblocking(*prop)...)
 	ruleOK := 0
 	for _, rr := range ruleRes {
 		obligations++
@@ -431,6 +432,11 @@ func cmdCheck(args []string) int {
 		"assumptions": assumptions,
 		"wall_s":      round3(time.Since(t0).Seconds()),
 		"violations":  violations,
+	}
+	if len(units) == 0 && len(lemmaRes) == 0 && len(ruleRes) > 0 {
+		// decided by enumeration / effect inference over go/ssa only: no solver obligation is involved
+		ev["level"] = "other"
+		ev["coverage"].(map[string]interface{})["explanation"] = fmt.Sprintf("%d structural/effect obligations decided by least-fixpoint enumeration over go/ssa (call graph incl. interface dispatch and function values, lockset dataflow): %d hold, %d fail and are listed as known findings with a replay against the real code; no SMT query is involved", obligations+len(knownHit), discharged, len(knownHit))
 	}
 	if obligations == 0 {
 		// keep the evidence file schema-valid even when nothing was generated
